@@ -37,8 +37,20 @@ ASSUMPTIONS = [
     "the wall-clock guard (0.4 s per delivery) stands for 'a small multiple of the datagram size' on this machine",
 ]
 OID = [1, 3, 6, 1, 2, 1, 1, 1, 0]
-SUBST = [0x00, 0x01, 0x30, 0x7F, 0x80, 0x81, 0x82, 0x84, 0xFF]
+SUBST = [0x00, 0x01, 0x02, 0x04, 0x05, 0x06, 0x30, 0x7F, 0x80, 0x81, 0x82, 0x84, 0xFF]
 BUDGET = 0.4
+
+
+def budget(dg):
+    """time allowed for one delivery: a constant plus a small multiple of the datagram size"""
+    return BUDGET + 25e-6 * len(dg)
+
+
+def fixed_clock():
+    """request / message ids are int(time()): pin the clock so that captured replies still match"""
+    from harness import opslib as OL
+
+    return OL.with_clock([1000] * 64)
 
 
 def header_positions(dg):
@@ -76,7 +88,7 @@ def mutations(ctx, dg):
     for n in cuts:
         out.append(("truncate", dg[:n]))
     for pos in header_positions(dg):
-        for v in SUBST if not ctx.quick else [0x80, 0x84, 0xFF, 0x00, 0x30]:
+        for v in SUBST if not ctx.quick else [0x80, 0x84, 0xFF, 0x00, 0x30, 0x02, 0x04]:
             if dg[pos] != v:
                 out.append(("header", dg[:pos] + bytes([v]) + dg[pos + 1 :]))
     return out
@@ -111,7 +123,8 @@ def deliver_response(version, level, dg, warm=True):
         W.run(client.get(RA.OID(OID)))
     s.queue.append(dg)
     t0 = time.perf_counter()
-    r = BL.guarded(lambda: W.run(client.getnext(RA.OID(OID[:-1]))), BUDGET)
+    with fixed_clock():
+        r = BL.guarded(lambda: W.run(client.getnext(RA.OID(OID[:-1]))), budget(dg))
     dt = time.perf_counter() - t0
     s.queue.clear()
     after = BL.guarded(lambda: RA.canon_value(W.run(client.get(RA.OID(OID)))), 2.0)
@@ -122,7 +135,8 @@ def deliver_discovery(level, dg):
     agent, s, client = make_world("v3", level)
     s.queue.append(dg)
     t0 = time.perf_counter()
-    r = BL.guarded(lambda: W.run(client.get(RA.OID(OID))), BUDGET)
+    with fixed_clock():
+        r = BL.guarded(lambda: W.run(client.get(RA.OID(OID))), budget(dg))
     dt = time.perf_counter() - t0
     s.queue.clear()
     after = BL.guarded(lambda: RA.canon_value(W.run(client.get(RA.OID(OID)))), 2.0)
@@ -135,7 +149,7 @@ def deliver_trap(dg, valid_trap):
     lst = Listener(b"public")
     try:
         t0 = time.perf_counter()
-        r = BL.guarded(lambda: lst.inject([("10.0.0.1", 1234, dg)]), BUDGET)
+        r = BL.guarded(lambda: lst.inject([("10.0.0.1", 1234, dg)]), budget(dg))
         dt = time.perf_counter() - t0
         n = len(lst.got)
         lst.inject([("10.0.0.2", 1235, valid_trap)])
@@ -145,6 +159,11 @@ def deliver_trap(dg, valid_trap):
 
 
 def bases():
+    with fixed_clock():
+        return _bases()
+
+
+def _bases():
     out = []
     for version, level in (("v1", "noauth"), ("v2c", "noauth"), ("v3", "noauth"), ("v3", "auth"), ("v3", "authpriv")):
         agent, s, client = make_world(version, level)
@@ -156,6 +175,38 @@ def bases():
     trap = B.enc_community_msg(1, b"public", B.enc_pdu(0xA7, 77, 0, 0, [([1, 3, 6, 1, 2, 1, 1, 3, 0], ["ticks", 5]), ([1, 3, 6, 1, 6, 3, 1, 1, 4, 1, 0], ["oid", [1, 3, 6, 1, 4, 1, 9]]), (OID, ["str", "68"])]))
     out.append(("trap", "v2c", "noauth", trap, None))
     return out, trap
+
+
+def value_mutations(entry, dg):
+    """well-formed datagrams whose integer / string fields carry extreme values"""
+    out = []
+    try:
+        m = B.parse_message(dg)
+    except Exception:  # noqa: BLE001
+        return out
+    big = [2**31, 2**63, 2**120, -(2**120), 2**1000]
+    if m.get("version") == 3:
+        items = B.dec_seq(B.dec_tlv(dg)[1])
+        payload = B.tlv(items[3][0], items[3][1])
+        base = dict(msg_id=m["msg_id"], max_size=m["max_size"], flags=m["flags"], engine_id=bytes(m["engine_id"]), boots=m["boots"], time_=m["time"], user=bytes(m["user"]), auth_params=bytes(m["auth_params"]), priv_params=bytes(m["priv_params"]))
+        for field in ("msg_id", "max_size", "boots", "time_"):
+            for v in big:
+                f = dict(base)
+                f[field] = v
+                out.append((f"value-{field}", B.enc_v3_message(f["msg_id"], f["max_size"], f["flags"], f["engine_id"], f["boots"], f["time_"], f["user"], f["auth_params"], f["priv_params"], payload)))
+        for field in ("engine_id", "user", "auth_params", "priv_params"):
+            for v in (b"", b"\x00" * 1000, b"\xff" * 40000):
+                f = dict(base)
+                f[field] = v
+                out.append((f"value-{field}", B.enc_v3_message(f["msg_id"], f["max_size"], f["flags"], f["engine_id"], f["boots"], f["time_"], f["user"], f["auth_params"], f["priv_params"], payload)))
+    else:
+        p = m["pdu"]
+        for v in big:
+            out.append(("value-rid", B.enc_community_msg(m["version"], bytes(m["community"]), B.enc_pdu(p["tag"], v, p["a"], p["b"], p["varbinds"]))))
+            out.append(("value-errindex", B.enc_community_msg(m["version"], bytes(m["community"]), B.enc_pdu(p["tag"], p["request_id"], 0, v, p["varbinds"]))))
+            out.append(("value-int", B.enc_community_msg(m["version"], bytes(m["community"]), B.enc_pdu(p["tag"], p["request_id"], 0, 0, [(o, ["int", v]) for o, _ in p["varbinds"]]))))
+        out.append(("value-manybinds", B.enc_community_msg(m["version"], bytes(m["community"]), B.enc_pdu(p["tag"], p["request_id"], 0, 0, [([1, 3, 6, 1, 2, 1, 1, i, 0], ["null"]) for i in range(3000)]))))
+    return out
 
 
 def special_datagrams(ctx):
@@ -186,18 +237,21 @@ def run(ctx):
     base_list, valid_trap = bases()
     cases = []
     for entry, version, level, dg, agent in base_list:
-        for kind, m in mutations(ctx, dg):
+        for kind, m in mutations(ctx, dg) + value_mutations(entry, dg):
             cases.append((entry, version, level, kind, m))
     for kind, m in special_datagrams(ctx):
         entry, version, level = ctx.rng.choice([("response", "v2c", "noauth"), ("response", "v3", "auth"), ("discovery", "v3", "auth"), ("trap", "v2c", "noauth"), ("response", "v1", "noauth")])
         cases.append((entry, version, level, kind, m))
     hangs, slow = [], []
     seen = set()
+    tracemalloc.start()
     for entry, version, level, kind, m in cases:
         key = (entry, version, level, m)
         if key in seen:
             continue
         seen.add(key)
+        tracemalloc.reset_peak()
+        base_mem = tracemalloc.get_traced_memory()[0]
         if entry == "response":
             outcome, dt, usable = deliver_response(version, level, m)
         elif entry == "discovery":
@@ -209,8 +263,11 @@ def run(ctx):
         res.count(f"entry:{entry}/{version}/{level}")
         res.count(f"mutation:{kind.split('-')[0]}")
         res.count(f"outcome:{outcome}")
+        peak = tracemalloc.get_traced_memory()[1] - base_mem
         if outcome == "hang":
             hangs.append((case, m, level))
+        elif peak > 64 * max(1, len(m)) + (6 << 20):
+            res.violate("cost", {**case, "peak_bytes": peak}, "memory bounded by a small multiple of the datagram size (+ the constant key-derivation buffers)", peak, f"processing a {len(m)}-octet datagram allocated {peak >> 20} MiB", {"kind": "memory"})
         if not usable:
             res.violate("mutation-sweep", case, "follow-up request succeeds", "follow-up failed", "the client (listener) was not usable after this datagram", {"kind": "unusable-after", "entry": entry})
     # hangs must be the ones the x690 mirror predicts
@@ -247,22 +304,7 @@ def run(ctx):
         # linear budget: 1 microsecond per octet per... generous: 50 ms + 20 us per octet
         if dt > 0.05 + 20e-6 * len(dg):
             res.violate("cost", {"long_subidentifier_octets": n, "datagram_octets": len(dg), "seconds": round(dt, 3)}, "time linear in the datagram size", round(dt, 3), f"decoding an OID with one {n}-octet sub-identifier took {dt:.2f} s", {"kind": "superlinear", "where": "oid-subidentifier"})
-    # memory (sampled): peak allocation while processing
-    for entry, version, level, kind, m in cases[:: max(1, len(cases) // ctx.budget(40, 400))]:
-        if entry != "response":
-            continue
-        agent, s, client = make_world(version, level)
-        if version == "v3":
-            W.run(client.get(RA.OID(OID)))
-        s.queue.append(m)
-        tracemalloc.start()
-        BL.guarded(lambda: W.run(client.getnext(RA.OID(OID[:-1]))), BUDGET)
-        _cur, peak = tracemalloc.get_traced_memory()
-        tracemalloc.stop()
-        res.evaluations += 1
-        res.count("memory-sampled")
-        if peak > 64 * max(1, len(m)) + (4 << 20) and not (ctx.driver_ok and BL.loop_predicted([m]).get(m)):
-            res.violate("cost", {"datagram": m.hex()[:200], "peak_bytes": peak}, "bounded memory", peak, "peak memory is not bounded by a small multiple of the datagram size", {"kind": "memory"})
+    tracemalloc.stop()
     res.notes.append(f"long sub-identifier timings (octets, seconds): {[(n, round(t, 3)) for n, t in slow]}")
     return res
 
